@@ -34,7 +34,7 @@ type Env struct {
 	// side collects well-typedness facts about the ground terms a clause reads (0 <= len <= cap,
 	// integer fields within their type); evalClause conjoins them to an assumed clause, evalGoal
 	// makes them hypotheses of the goal, so they are never asserted outside the clause's guard
-	side *[]string
+	side       *[]string
 	inPureFact bool
 }
 
@@ -263,6 +263,38 @@ func (fr *Frame) evalClauseTV(c Clause, env *Env) (out TV) {
 		tv = env.coerce(tv, types.Typ[types.Int])
 	}
 	return tv
+}
+
+// tolerate evaluates one clause that is to be proved (or one loop invariant); when the clause does
+// not bind to the code (it names a local, a call or a loop that a change removed) the clause is
+// recorded as unbound - reported UNDECIDED - and skipped, so that the other clauses of the unit
+// are still decided.
+func (fr *Frame) tolerate(f func() string) (out string, ok bool) {
+	defer func() {
+		if r := recover(); r != nil {
+			var msg string
+			switch e := r.(type) {
+			case bindErr:
+				msg = string(e)
+			case evalErr:
+				msg = string(e)
+			default:
+				panic(r)
+			}
+			vc := fr.vc
+			dup := false
+			for _, u := range vc.unbound {
+				if u == msg {
+					dup = true
+				}
+			}
+			if !dup {
+				vc.unbound = append(vc.unbound, msg)
+			}
+			out, ok = "", false
+		}
+	}()
+	return f(), true
 }
 
 // bindErr: the contract does not bind to the code (renamed variable etc.)
